@@ -173,6 +173,11 @@ func init() {
 			if err != nil {
 				return errClass(err), "-"
 			}
+			// a float power with a complex result (negative ** fraction): the value comes from
+			// cmplx.Pow and is not specified bit for bit, only that it is a complex number
+			if _, isC := res.(py.Complex); isC && len(f) > 3 && f[1] == "pow" && f[2][0] != 'c' && f[3][0] != 'c' {
+				return "complex", "c"
+			}
 			return c15Show(res)
 		}
 	}
